@@ -103,3 +103,22 @@ fn o5_3_corner_arcs_are_right_angle() {
     let arc = if order { Arc::new(p_h, p_v, 0.5) } else { Arc::new(p_v, p_h, 0.5) };
     assert!(arc.is_aabb_right_angle_arc(), "O5.3 a quarter arc of a rounded corner is a right-angle arc at every position");
 }
+
+//@ harness: o1_5_right_angle_arc_total props=C01,C05 tier=quick obl=O1.5 timeout=900 mem=10
+//@ desc: Arc::is_aabb_right_angle_arc and Arc::center never panic for ANY lattice arc (eighth-unit endpoints in a 3x3-cell window at a cell offset <= 64x64, radius 0.125..4 in eighths), including arcs whose chord is longer than their diameter (centre = NaN) and zero-length chords; powf stubbed by exact square
+//@ encodes: Arc::is_aabb_right_angle_arc, Arc::center, Arc::new
+#[kani::proof]
+#[kani::stub(f32::powf, crate::kstub::powf_sq)]
+fn o1_5_right_angle_arc_total() {
+    let k = any_in(0, 64);
+    let n = any_in(0, 64);
+    let off = Point::new(k as f32, 2.0 * n as f32);
+    let a = p8(any_in(-8, 16), any_in(-16, 32)) + off;
+    let b = p8(any_in(-8, 16), any_in(-16, 32)) + off;
+    let r = any_in(1, 32) as f32 * 0.125;
+    let arc = Arc::new(a, b, r);
+    let c = arc.center();
+    kani::cover!(c.x != c.x, "an arc whose centre is NaN is explored");
+    let ra = arc.is_aabb_right_angle_arc();
+    kani::cover!(ra, "a right-angle arc is explored");
+}
